@@ -169,8 +169,15 @@ type change struct {
 
 func frame(v any) []byte {
 	b, _ := json.Marshal(v)
+	// every third message also carries the optional Content-Type header of the base protocol
+	frameCount++
+	if frameCount%3 == 0 {
+		return []byte(fmt.Sprintf("Content-Length: %d\r\nContent-Type: application/vscode-jsonrpc; charset=utf-8\r\n\r\n%s", len(b), b))
+	}
 	return []byte(fmt.Sprintf("Content-Length: %d\r\n\r\n%s", len(b), b))
 }
+
+var frameCount int
 
 func notif(method string, params any) []byte {
 	return frame(map[string]any{"jsonrpc": "2.0", "method": method, "params": params})
@@ -212,6 +219,7 @@ func (s *sample) LogLines() []string { return s.Log }
 type outcome struct{ class, sig, detail string }
 
 func (e *Engine) Run(t *tape.Tape, keep bool) *sim.Result {
+	frameCount = 0
 	res := sim.NewResult()
 	var log tape.Log
 	log.Keep = keep
@@ -268,6 +276,8 @@ func (e *Engine) Run(t *tape.Tape, keep bool) *sim.Result {
 			{uri: "file:///w/a.wa", path: "/w/a.wa"},
 			{uri: "file:///w/b.wz", path: "/w/b.wz"},
 			{uri: "file:///w/dir/c.wa", path: "/w/dir/c.wa"},
+			// a URI that needs unescaping (space, non-ASCII): the slow path of DocumentURI.Path
+			{uri: "file:///w/my%20dir/%E4%B8%96.wa", path: "/w/my dir/世.wa"},
 		}
 		nextID := 1
 		// send delivers a message in tape-chosen pieces, yielding between pieces so
